@@ -60,7 +60,8 @@ def sigInputBuilder (method : Str) (body : Option (List UInt8)) (hs : Headers) (
 /-- `should_skip_sig(method, uri)` -/
 def shouldSkipSig (method : Str) (u : Uri) : Bool :=
   let url := lower u.toStr
-  (method = "PUT".toList && url = "/vmagentlog".toList) ||
-  (method = "POST".toList && url = "/machine/?comp=telemetrydata".toList)
+  -- the two URL texts are the ones found in the source (generated facts)
+  (method = "PUT".toList && url = Gpa.Facts.skipSigPutUrl.toList) ||
+  (method = "POST".toList && url = Gpa.Facts.skipSigPostUrl.toList)
 
 end Gpa.Canon
